@@ -26,27 +26,102 @@
 static MPI_Request VR;                           /* the victim's request handle: non-null, unique */
 static request_callback_function_type VC;        /* the victim's callback token: non-empty, unique */
 static bool g_mt;                                /* unit runs the multi-threaded protocol: vectors need the lock */
-static size_t g_r1, g_r2;                        /* slots of requests_ holding VR (sorted, NOSLOT = none) */
-static size_t g_tomb;                            /* slot of requests_ that holds MPI_REQUEST_NULL because VR was nulled there */
-static size_t g_c1, g_c2;                        /* slots of callbacks_ holding the victim triple */
-static int g_c_err;                              /* err_ field of the victim triple in callbacks_ */
-static MPI_Request g_c_req;                      /* request_ field of the victim triple in callbacks_ */
-static bool g_inq;                               /* victim pair is in request_callback_queue_ */
-static bool g_inready;                           /* victim triple is in ready_requests_ */
-static int g_ready_err;                          /* err_ of the victim triple in ready_requests_ */
-static bool g_taken;                             /* another poller dequeued the victim from ready_requests_ */
-static bool g_complete;                          /* MPI has completed the victim's operation (monotone) */
-static unsigned g_reported;                      /* number of times MPI reported VR complete to this call */
-static int g_rep_code;                           /* error code MPI attached to that report */
-static unsigned g_inv_v, g_inv_total;            /* callback invocations by this call: victim / all */
-static int g_inv_err;                            /* error code the victim callback was invoked with */
-static unsigned g_aif_inc, g_aif_dec;            /* RMW steps of this call on all_in_flight_ */
-static unsigned g_act_inc, g_act_dec;            /* global activity count steps of this call */
-static uint32_t g_last_load;                     /* value returned by the last load of all_in_flight_ */
-static unsigned g_q_enq, g_q_enq_v;              /* request_callback_queue_.enqueue calls: all / victim */
-static unsigned g_rq_enq_v, g_rq_deq, g_rq_deq_v;/* ready queue: victim enqueues, dequeues all / victim */
-static unsigned g_push_v;                        /* victim pushes into requests_ (push_back) */
-static bool g_order_ok;                          /* order predicates (see stubs) all held */
+
+/* ghost state grouped into a few structs: each group is ONE assigns target (goto-instrument --dfcc checks every assignment against
+ * every target of the frame; dozens of scalar targets made symbolic execution of the pollers take minutes) */
+struct vx_gv {
+  size_t r1; /* slots of requests_ holding VR (sorted, NOSLOT = none) */
+  size_t r2; /* slots of requests_ holding VR (sorted, NOSLOT = none) */
+  size_t tomb; /* slot of requests_ that holds MPI_REQUEST_NULL because VR was nulled there */
+  size_t c1; /* slots of callbacks_ holding the victim triple */
+  size_t c2; /* slots of callbacks_ holding the victim triple */
+  int c_err; /* err_ field of the victim triple in callbacks_ */
+  MPI_Request c_req; /* request_ field of the victim triple in callbacks_ */
+  size_t rc_j; /* read cache of requests_: last untracked cell read ... */
+  MPI_Request rc_x; /* ... and the value it had */
+};
+static struct vx_gv GV;
+#define g_r1 (GV.r1)
+#define g_r2 (GV.r2)
+#define g_tomb (GV.tomb)
+#define g_c1 (GV.c1)
+#define g_c2 (GV.c2)
+#define g_c_err (GV.c_err)
+#define g_c_req (GV.c_req)
+#define g_rc_j (GV.rc_j)
+#define g_rc_x (GV.rc_x)
+struct vx_gq {
+  bool inq; /* victim pair is in request_callback_queue_ */
+  unsigned q_enq; /* request_callback_queue_.enqueue calls: all / victim */
+  unsigned q_enq_v; /* request_callback_queue_.enqueue calls: all / victim */
+  unsigned push_v; /* victim pushes into requests_ (push_back) */
+};
+static struct vx_gq GQ;
+#define g_inq (GQ.inq)
+#define g_q_enq (GQ.q_enq)
+#define g_q_enq_v (GQ.q_enq_v)
+#define g_push_v (GQ.push_v)
+struct vx_gm {
+  bool complete; /* MPI has completed the victim's operation (monotone) */
+  unsigned reported; /* number of times MPI reported VR complete to this call */
+  int rep_code; /* error code MPI attached to that report */
+  int ts_n; /* outcount of the last MPI_Testsome */
+  size_t ts_off; 
+  size_t ts_incount; 
+  int ts_k; /* position of the victim in the index list of the last MPI_Testsome, -1 = not reported */
+  int ts_verr; /* MPI_ERROR of the victim's status entry */
+  size_t ts_vidx; /* index (relative to the slice) MPI reported for the victim */
+  unsigned cap_int; /* capacities of the index / status arrays (from the lifted declarations) */
+  unsigned cap_status; /* capacities of the index / status arrays (from the lifted declarations) */
+};
+static struct vx_gm GM;
+#define g_complete (GM.complete)
+#define g_reported (GM.reported)
+#define g_rep_code (GM.rep_code)
+#define g_ts_n (GM.ts_n)
+#define g_ts_off (GM.ts_off)
+#define g_ts_incount (GM.ts_incount)
+#define g_ts_k (GM.ts_k)
+#define g_ts_verr (GM.ts_verr)
+#define g_ts_vidx (GM.ts_vidx)
+#define g_cap_int (GM.cap_int)
+#define g_cap_status (GM.cap_status)
+struct vx_gr {
+  bool inready; /* victim triple is in ready_requests_ */
+  int ready_err; /* err_ of the victim triple in ready_requests_ */
+  bool taken; /* another poller dequeued the victim from ready_requests_ */
+  unsigned rq_enq_v; /* ready queue: victim enqueues, dequeues all / victim */
+  unsigned rq_deq; /* ready queue: victim enqueues, dequeues all / victim */
+  unsigned rq_deq_v; /* ready queue: victim enqueues, dequeues all / victim */
+};
+static struct vx_gr GR;
+#define g_inready (GR.inready)
+#define g_ready_err (GR.ready_err)
+#define g_taken (GR.taken)
+#define g_rq_enq_v (GR.rq_enq_v)
+#define g_rq_deq (GR.rq_deq)
+#define g_rq_deq_v (GR.rq_deq_v)
+struct vx_gi {
+  unsigned inv_v; /* callback invocations by this call: victim / all */
+  unsigned inv_total; /* callback invocations by this call: victim / all */
+  int inv_err; /* error code the victim callback was invoked with */
+  unsigned aif_inc; /* RMW steps of this call on all_in_flight_ */
+  unsigned aif_dec; /* RMW steps of this call on all_in_flight_ */
+  unsigned act_inc; /* global activity count steps of this call */
+  unsigned act_dec; /* global activity count steps of this call */
+  uint32_t last_load; /* value returned by the last load of all_in_flight_ */
+  bool order_ok; /* order predicates (see stubs) all held */
+};
+static struct vx_gi GI;
+#define g_inv_v (GI.inv_v)
+#define g_inv_total (GI.inv_total)
+#define g_inv_err (GI.inv_err)
+#define g_aif_inc (GI.aif_inc)
+#define g_aif_dec (GI.aif_dec)
+#define g_act_inc (GI.act_inc)
+#define g_act_dec (GI.act_dec)
+#define g_last_load (GI.last_load)
+#define g_order_ok (GI.order_ok)
 
 /* where the victim pair is when the function under contract starts (chosen by the harness, pinned by the precondition) */
 enum { W_ABSENT = 0, W_INQ = 1, W_LIVE = 2, W_DEAD = 3, W_READY = 4 };
@@ -62,8 +137,6 @@ struct rq { int unused; };                       /* ConcurrentQueue<request_call
 struct rdq { int unused; };                      /* ConcurrentQueue<ready_callback> */
 struct rptr { size_t off; };                     /* MPI_Request* into requests_ (offset only) */
 
-static size_t g_rc_j;                           /* read cache of requests_: last untracked cell read ... */
-static MPI_Request g_rc_x;                       /* ... and the value it had */
 static struct vreq *g_vreq;
 static struct vcb *g_vcb;
 
@@ -244,7 +317,8 @@ static bool rq_try_dequeue(struct rq *q, struct request_callback *out)
   VX_ASSUME(out->request_ != VR && out->callback_function_ != VC);   /* the victim's tokens are unique */
   return true;
 }
-static size_t rq_size_approx(struct rq *q) { size_t n = nondet_size(); if (g_inq) VX_ASSUME(n >= 1); return n; }
+static bool g_q_empty;   /* nothing at all is in request_callback_queue_ (life-cycle units) */
+static size_t rq_size_approx(struct rq *q) { size_t n = nondet_size(); if (g_q_empty) return 0; if (g_inq) VX_ASSUME(n >= 1); return n; }
 
 /* ---- ConcurrentQueue<ready_callback> ready_requests_ (lock-free, any poller may dequeue at any time) ---------- */
 static bool rdq_enqueue(struct rdq *q, struct ready_callback x)
@@ -365,12 +439,6 @@ static int MPI_Testany(size_t count, struct rptr arr, int *index, int *flag, MPI
 /* MPI_Testsome: outcount and the two output arrays are abstracted to accessors (std::array lowered by rule StdArray) */
 struct vx_int_array { int unused; };
 struct vx_status_array { int unused; };
-static int g_ts_n;            /* outcount of the last MPI_Testsome */
-static size_t g_ts_off, g_ts_incount;
-static int g_ts_k;            /* position of the victim in the index list of the last MPI_Testsome, -1 = not reported */
-static int g_ts_verr;         /* MPI_ERROR of the victim's status entry */
-static size_t g_ts_vidx;      /* index (relative to the slice) MPI reported for the victim */
-static unsigned g_cap_int, g_cap_status;   /* capacities of the index / status arrays (from the lifted declarations) */
 #define VX_ARRAY_CAPACITY(kind, n) (g_cap_##kind = (n))
 
 static int MPI_Testsome(int incount, struct rptr arr, int *outcount, struct vx_int_array *indices, struct vx_status_array *statuses)
